@@ -97,8 +97,7 @@ func (c *Ctx) load(st *State, a T, t types.Type) T {
 		}
 		return arr
 	}
-	s := c.R.SortOf(t)
-	h := c.R.CellHeap(s)
+	h := c.R.CellHeapT(t)
 	v := Select(c.getHeap(st, h), a)
 	return v
 }
@@ -122,8 +121,7 @@ func (c *Ctx) store(st *State, a T, t types.Type, v T) {
 		}
 		return
 	}
-	s := c.R.SortOf(t)
-	h := c.R.CellHeap(s)
+	h := c.R.CellHeapT(t)
 	c.setHeap(st, h, Store(c.getHeap(st, h), a, v))
 }
 
@@ -296,9 +294,9 @@ func (fr *frame) execInstr(in ssa.Instruction, st *State) {
 	case *ssa.MakeMap:
 		mt := under(x.Type()).(*types.Map)
 		r := c.newObj(st, "map")
-		ks, vs := c.R.SortOf(mt.Key()), c.R.SortOf(mt.Elem())
-		dh := c.R.MDomHeap(ks)
-		c.R.MValHeap(ks, vs)
+		ks := c.R.SortOf(mt.Key())
+		dh := c.R.MDomHeapT(mt)
+		c.R.MValHeapT(mt)
 		c.setHeap(st, dh, Store(c.getHeap(st, dh), r, T{"((as const " + ArraySort(ks, "Bool") + ") false)", ArraySort(ks, "Bool")}))
 		fr.vals[x] = r
 	case *ssa.MakeSlice:
@@ -307,8 +305,7 @@ func (fr *frame) execInstr(in ssa.Instruction, st *State) {
 		r := c.newObj(st, "arr")
 		et := under(x.Type()).(*types.Slice).Elem()
 		if _, isStruct := under(et).(*types.Struct); !isStruct {
-			es := c.R.SortOf(et)
-			h := c.getHeap(st, c.R.CellHeap(es))
+			h := c.getHeap(st, c.R.CellHeapT(et))
 			c.emit("(assert (forall ((i Int)) (! (= (select %s (ridx %s i)) %s) :pattern ((ridx %s i)))))", h.S, r.S, c.R.Zero(et).S, r.S)
 		}
 		fr.setVal(x, MkSlice(r, IntLit(0), ln, cp))
@@ -653,7 +650,7 @@ func (fr *frame) execConvert(x *ssa.Convert, st *State) {
 		fr.setVal(x, app("Int", "f2i", v))
 	case from == "Slice" && to == "Str":
 		c.R.UFun("bytes2str", "(declare-fun bytes2str (Slice (Array Ref Int)) Str)")
-		h := c.getHeap(st, c.R.CellHeap("Int"))
+		h := c.getHeap(st, c.R.CellHeapT(types.Typ[types.Byte]))
 		fr.setVal(x, app("Str", "bytes2str", v, h))
 	case from == "Str" && to == "Slice":
 		r := c.newObj(st, "bytes")
@@ -805,26 +802,23 @@ func (fr *frame) execSlice(x *ssa.Slice, st *State) {
 // ---- maps -----------------------------------------------------------------------
 
 func (c *Ctx) mapHas(st *State, m T, mt *types.Map, k T) T {
-	ks := c.R.SortOf(mt.Key())
-	dh := c.R.MDomHeap(ks)
+	dh := c.R.MDomHeapT(mt)
 	return And(Not(Eq(m, Nil)), Select(Select(c.getHeap(st, dh), m), k))
 }
 
 func (c *Ctx) mapGet(st *State, m T, mt *types.Map, k T) T {
-	ks, vs := c.R.SortOf(mt.Key()), c.R.SortOf(mt.Elem())
-	vh := c.R.MValHeap(ks, vs)
+	vh := c.R.MValHeapT(mt)
 	return Ite(c.mapHas(st, m, mt, k), Select(Select(c.getHeap(st, vh), m), k), c.R.Zero(mt.Elem()))
 }
 
 func (c *Ctx) mapLen(st *State, m T, mt *types.Map) T {
 	ks := c.R.SortOf(mt.Key())
-	dh := c.R.MDomHeap(ks)
+	dh := c.R.MDomHeapT(mt)
 	return Ite(Eq(m, Nil), IntLit(0), app("Int", c.R.Card(ks), Select(c.getHeap(st, dh), m)))
 }
 
 func (c *Ctx) mapStore(st *State, m T, mt *types.Map, k, v T) {
-	ks, vs := c.R.SortOf(mt.Key()), c.R.SortOf(mt.Elem())
-	dh, vh := c.R.MDomHeap(ks), c.R.MValHeap(ks, vs)
+	dh, vh := c.R.MDomHeapT(mt), c.R.MValHeapT(mt)
 	d := c.getHeap(st, dh)
 	c.setHeap(st, dh, Store(d, m, Store(Select(d, m), k, True)))
 	vv := c.getHeap(st, vh)
@@ -832,8 +826,7 @@ func (c *Ctx) mapStore(st *State, m T, mt *types.Map, k, v T) {
 }
 
 func (c *Ctx) mapDelete(st *State, m T, mt *types.Map, k T) {
-	ks := c.R.SortOf(mt.Key())
-	dh := c.R.MDomHeap(ks)
+	dh := c.R.MDomHeapT(mt)
 	d := c.getHeap(st, dh)
 	c.setHeap(st, dh, Ite(Eq(m, Nil), d, Store(d, m, Store(Select(d, m), k, False))))
 }
@@ -913,7 +906,7 @@ func (fr *frame) execNext(x *ssa.Next, st *State) {
 	// ok: k is a not-yet-visited key of the current map
 	c.assume(st, Implies(ok, And(has, Not(Select(vis, k)))))
 	// !ok: every current key has been visited
-	dh := c.R.MDomHeap(ks)
+	dh := c.R.MDomHeapT(mt)
 	c.emit("(assert (=> (and %s (not %s)) (forall ((kk %s)) (! (=> (and (not (= %s rnil)) (select (select %s %s) kk)) (select %s kk)) :pattern ((select (select %s %s) kk))))))",
 		st.pc.S, ok.S, ks, rec.x.S, c.getHeap(st, dh).S, rec.x.S, vis.S, c.getHeap(st, dh).S, rec.x.S)
 	val := c.name("next_v", c.mapGet(st, rec.x, mt, k))
